@@ -3,7 +3,10 @@
 * `PairType.iter_comb`: is the right component spliced in only when its class is unannotated
   (`not (item.field_name or item.type_name)`, pinned) or whenever it is a pair (C17's repair)?
 * `PairType.to_micheline_value` / `from_micheline_value`: recognised statement by statement (modes, the 2 / 3 / >= 4
-  layouts of the optimized form, the accepted arities) — the Lean mirror is written against exactly this text;
+  layouts of the optimized form, the accepted arities, `assert not annots` on a `Pair` node, `issubclass(cls.args[1],
+  PairType)` before three or more arguments go to the right component) — the Lean mirror is written against exactly this text;
+* `parse_micheline_value` (annotated data nodes rejected, then the handler lookup) and `StringType.from_value` (ASCII;
+  newline or 0x20..0x7e), statement by statement as well;
 * `TimestampType.to_micheline_value`: the range guard of the readable branch (none on the pinned tree) with its bounds;
 * `format_timestamp`: is the year zero-padded (`%Y` of glibc is not)?
 * `optimize_timestamp` / `TimestampType.from_micheline_value`: the string handler is
@@ -54,11 +57,36 @@ PAIR_TO_MICH = [
 ]
 
 PAIR_FROM_MICH = [
+    # a `Pair` node that carries annotations is not a value (3f5c1d7) ...
     "if isinstance(val_expr, dict):\n    prim, args = (val_expr.get('prim'), val_expr.get('args', []))\n    assert prim == 'Pair', MSG\n"
+    "    assert not val_expr.get('annots'), MSG\n"
     "elif isinstance(val_expr, list):\n    args = val_expr\nelse:\n    raise AssertionError(MSG)",
+    # ... and three or more arguments need a pair type on the right (1138dca)
     "if len(args) == 2:\n    value = tuple((cls.args[i].from_micheline_value(arg) for i, arg in enumerate(args)))\n"
-    "elif len(args) > 2:\n    value = (cls.args[0].from_micheline_value(args[0]), cls.args[1].from_micheline_value(args[1:]))\n"
+    "elif len(args) > 2:\n    assert issubclass(cls.args[1], PairType), MSG\n"
+    "    value = (cls.args[0].from_micheline_value(args[0]), cls.args[1].from_micheline_value(args[1:]))\n"
     "else:\n    raise AssertionError(MSG)",
+    "return cls(value)",
+]
+
+# `parse_micheline_value` (micheline.py): the reader behind unit / bool / option / or / the `Elt` of map and big_map.  The
+# mirror (`Impl.Value.leafOfMich` / `ofMichCore` / `mapElts`) rejects an annotated node before it looks the (prim, arity)
+# pair up, as this text does
+PARSE_VALUE = [
+    "assert isinstance(val_expr, dict), MSG",
+    "prim, args = (val_expr.get('prim'), val_expr.get('args', []))",
+    "assert not val_expr.get('annots'), MSG",
+    "expected = ' or '.join(map(lambda x: f'{x[0]} ({x[1]} args)', handlers))",
+    "assert (prim, len(args)) in handlers, MSG",
+    "handler = handlers[prim, len(args)]",
+    "return handler(args)",
+]
+
+# `StringType.from_value`: ASCII, and every character is a newline or printable (45078c3) — `VC.asciiOnly`
+STRING_FROM_VALUE = [
+    "assert isinstance(value, str), MSG",
+    "assert len(value) == len(value.encode()), MSG",
+    "assert all((c == '\\n' or ' ' <= c <= '~' for c in value)), MSG",
     "return cls(value)",
 ]
 
@@ -146,6 +174,21 @@ def gen(status):
     ok_f = fm == PAIR_FROM_MICH
     status['PairType.from_micheline_value shape'] = (ok_f, 'recognised' if ok_f else 'differs from the mirrored text: ' + ' | '.join(fm)[:400])
     out.append(f'def pairFromMichRecognised : Bool := {str(ok_f).lower()}')
+    pv_fn = find_func(tree('micheline.py'), 'parse_micheline_value')
+    pv = _norm_body(pv_fn) if pv_fn is not None else []
+    ok_pv = pv == PARSE_VALUE
+    status['parse_micheline_value shape'] = (ok_pv, 'recognised (annotated data nodes rejected)' if ok_pv
+                                             else 'differs from the mirrored text: ' + ' | '.join(pv)[:400])
+    out.append('/-- `parse_micheline_value`: dict, no annotations, `(prim, len(args))` looked up in the handler table -/')
+    out.append(f'def parseValueRecognised : Bool := {str(ok_pv).lower()}')
+    sfv_cls = find_class(tree('types/core.py'), 'StringType')
+    sfv_fn = find_func(sfv_cls, 'from_value') if sfv_cls is not None else None
+    sfv = _norm_body(sfv_fn) if sfv_fn is not None else []
+    ok_sfv = sfv == STRING_FROM_VALUE
+    status['StringType.from_value shape'] = (ok_sfv, 'recognised (ASCII; newline or 0x20..0x7e)' if ok_sfv
+                                             else 'differs from the mirrored text: ' + ' | '.join(sfv)[:400])
+    out.append('/-- `StringType.from_value`: `len(s) == len(s.encode())` and every character is `\\n` or in `\' \' … \'~\'` -/')
+    out.append(f'def stringFromValueRecognised : Bool := {str(ok_sfv).lower()}')
 
     # --- TimestampType.to_micheline_value
     dom = tree('types/domain.py')
